@@ -1,3 +1,365 @@
 package main
 
-func accMain(args []string) { panic("not yet") }
+// C50 — access modifiers and constant fields. Every row of the table printed by spec/lang/Access.tla
+// is rendered as contracts deployed to two accounts (+ a script / transaction where the site is one)
+// and run through the real runtime: parser, checker with the runtime's import resolution and
+// account-access handler, and contract initialisation. Recorded: accepted?, access errors, other errors.
+
+import (
+	"encoding/json"
+	"fmt"
+	"reflect"
+	"runtime"
+	"sort"
+	"strings"
+
+	"github.com/onflow/cadence/common"
+	"github.com/onflow/cadence/errors"
+	"github.com/onflow/cadence/sema"
+
+	"verifharness/host"
+	"verifharness/util"
+)
+
+type ACase struct {
+	ID    int    `json:"id"`
+	Kind  string `json:"kind"` // access | init
+	Site  string `json:"site"`
+	Cont  string `json:"cont"`  // S | A
+	CKind string `json:"ckind"` // struct | resource | contract
+	Mod   string `json:"mod"`
+	MKind string `json:"mkind"` // var | let | fun
+	Via   string `json:"via"`
+	Op    string `json:"op"`
+	FKind string `json:"fkind"` // init family
+	N     int    `json:"n"`
+}
+
+type AResult struct {
+	ID     int      `json:"id"`
+	Accept bool     `json:"accept"`
+	Access []string `json:"access"` // access / constant-field errors
+	Other  []string `json:"other"`  // anything else: harness error
+	Src    string   `json:"src,omitempty"`
+}
+
+var accMods = []string{"self", "contract", "account", "all", "E", "E,F", "E|F"}
+var accPrim = []string{"self", "contract", "account", "all"}
+
+func modName(m string) string {
+	switch m {
+	case "E,F":
+		return "EaF"
+	case "E|F":
+		return "EoF"
+	}
+	return m
+}
+
+func modDecl(m string) string { return "access(" + m + ")" }
+
+// accessErrors are the checker errors that are verdicts about the property.
+var accessErrors = map[string]bool{
+	"InvalidAccessError":                true,
+	"InvalidAssignmentAccessError":      true,
+	"AssignmentToConstantMemberError":   true,
+	"AssignmentToConstantError":         true,
+	"FieldReinitializationError":        true,
+	"UnauthorizedReferenceAssignmentError": true,
+}
+
+// site statement: the access under test
+func accStmt(c *ACase, pfx string) string {
+	mn := modName(c.Mod)
+	if c.Cont == "A" {
+		recv := "A"
+		if c.Via == "self" {
+			recv = "self"
+		}
+		if c.Via == "cref" {
+			recv = "cr"
+		}
+		switch {
+		case c.MKind == "fun":
+			return fmt.Sprintf("let x = %s.cf_%s()", recv, mn)
+		case c.Op == "read" && c.MKind == "var":
+			return fmt.Sprintf("let x = %s.c_%s", recv, mn)
+		case c.Op == "read":
+			return fmt.Sprintf("let x = %s.k_%s", recv, mn)
+		case c.MKind == "var":
+			return fmt.Sprintf("%s.c_%s = 5", recv, mn)
+		default:
+			return fmt.Sprintf("%s.k_%s = 5", recv, mn)
+		}
+	}
+	recv := c.Via + "."
+	if c.Via == "oo" || c.Via == "ror" {
+		recv = c.Via + "?."
+	}
+	switch {
+	case c.MKind == "fun":
+		return fmt.Sprintf("let x = %sm_%s()", recv, mn)
+	case c.Op == "read" && c.MKind == "var":
+		return fmt.Sprintf("let x = %sf_%s", recv, mn)
+	case c.Op == "read":
+		return fmt.Sprintf("let x = %sl_%s", recv, mn)
+	case c.MKind == "var":
+		return fmt.Sprintf("%sf_%s = 5", recv, mn)
+	default:
+		return fmt.Sprintf("%sl_%s = 5", recv, mn)
+	}
+}
+
+// body of the site: builds the paths, performs the access, cleans up. pfx is "A." outside contract A.
+func accBody(c *ACase, pfx string) string {
+	var sb strings.Builder
+	res := c.CKind == "resource"
+	if c.Cont == "S" {
+		S := pfx + "S"
+		if res {
+			fmt.Fprintf(&sb, "var o <- %smk()\n", "A.")
+			fmt.Fprintf(&sb, "var oo: @%s? <- %smk()\n", S, "A.")
+		} else {
+			fmt.Fprintf(&sb, "var o = A.mk()\n")
+			fmt.Fprintf(&sb, "var oo: %s? = A.mk()\n", S)
+		}
+		fmt.Fprintf(&sb, "let r = &o as &%s\n", S)
+		fmt.Fprintf(&sb, "let arE = &o as auth(%sE) &%s\n", pfx, S)
+		fmt.Fprintf(&sb, "let arF = &o as auth(%sF) &%s\n", pfx, S)
+		fmt.Fprintf(&sb, "let arEF = &o as auth(%sE, %sF) &%s\n", pfx, pfx, S)
+		fmt.Fprintf(&sb, "let arEoF = &o as auth(%sE | %sF) &%s\n", pfx, pfx, S)
+		fmt.Fprintf(&sb, "let ror: &%s? = &o as &%s\n", S, S)
+	}
+	if c.Cont == "A" && c.Via == "cref" {
+		sb.WriteString("let cr = getAccount(0x1).contracts.borrow<&A>(name: \"A\")!\n")
+	}
+	sb.WriteString(accStmt(c, pfx))
+	sb.WriteString("\n")
+	if c.Cont == "S" && res {
+		sb.WriteString("destroy o\ndestroy oo\n")
+	}
+	return sb.String()
+}
+
+func contractA(c *ACase, inMethod, inClosure, inSib, inFun string) string {
+	var sb strings.Builder
+	res := c.CKind == "resource"
+	sb.WriteString("access(all) contract A {\n  access(all) entitlement E\n  access(all) entitlement F\n")
+	for _, m := range accPrim {
+		fmt.Fprintf(&sb, "  %s var c_%s: Int\n  %s let k_%s: Int\n  %s fun cf_%s(): Int { return 1 }\n",
+			modDecl(m), m, modDecl(m), m, modDecl(m), m)
+	}
+	kw := "struct"
+	if res {
+		kw = "resource"
+	}
+	fmt.Fprintf(&sb, "  access(all) %s S {\n", kw)
+	for _, m := range accMods {
+		mn := modName(m)
+		fmt.Fprintf(&sb, "    %s var f_%s: Int\n    %s let l_%s: Int\n    %s fun m_%s(): Int { return 1 }\n",
+			modDecl(m), mn, modDecl(m), mn, modDecl(m), mn)
+	}
+	sb.WriteString("    init() {\n")
+	for _, m := range accMods {
+		fmt.Fprintf(&sb, "      self.f_%s = 0\n      self.l_%s = 0\n", modName(m), modName(m))
+	}
+	sb.WriteString("    }\n")
+	fmt.Fprintf(&sb, "    access(all) fun siteMethod(): Int {\n%s      return 0\n    }\n", indent(inMethod, "      "))
+	fmt.Fprintf(&sb, "    access(all) fun siteClosure(): Int {\n      let g = fun (): Int {\n%s        return 0\n      }\n      return g()\n    }\n", indent(inClosure, "        "))
+	sb.WriteString("  }\n")
+	if res {
+		sb.WriteString("  access(all) fun mk(): @S { return <- create S() }\n")
+	} else {
+		sb.WriteString("  access(all) fun mk(): S { return S() }\n")
+	}
+	fmt.Fprintf(&sb, "  access(all) struct Sib {\n    access(all) fun site(): Int {\n%s      return 0\n    }\n  }\n", indent(inSib, "      "))
+	fmt.Fprintf(&sb, "  access(all) fun site(): Int {\n%s    return 0\n  }\n", indent(inFun, "    "))
+	sb.WriteString("  init() {\n")
+	for _, m := range accPrim {
+		fmt.Fprintf(&sb, "    self.c_%s = 0\n    self.k_%s = 0\n", m, m)
+	}
+	sb.WriteString("  }\n}\n")
+	return sb.String()
+}
+
+func indent(s, ind string) string {
+	if s == "" {
+		return ""
+	}
+	lines := strings.Split(strings.TrimRight(s, "\n"), "\n")
+	for i := range lines {
+		lines[i] = ind + lines[i]
+	}
+	return strings.Join(lines, "\n") + "\n"
+}
+
+func initProgram(c *ACase) string {
+	var body strings.Builder
+	for i := 0; i < c.N; i++ {
+		fmt.Fprintf(&body, "self.x = %d; ", i)
+	}
+	decl := fmt.Sprintf("access(all) %s x: Int", c.FKind)
+	switch c.CKind {
+	case "contract":
+		return fmt.Sprintf("access(all) contract K {\n  %s\n  init() { %s}\n}\n", decl, body.String())
+	default:
+		return fmt.Sprintf("access(all) contract K {\n  access(all) %s Q {\n    %s\n    init() { %s}\n  }\n  init() {}\n}\n", c.CKind, decl, body.String())
+	}
+}
+
+// findCheckerError digs the sema.CheckerError out of a runtime error chain.
+func findCheckerErrors(err error, out *[]error, depth int) {
+	if err == nil || depth > 40 {
+		return
+	}
+	if ce, ok := err.(*sema.CheckerError); ok {
+		*out = append(*out, ce.Errors...)
+		return
+	}
+	if p, ok := err.(errors.ParentError); ok {
+		for _, c := range p.ChildErrors() {
+			findCheckerErrors(c, out, depth+1)
+		}
+	}
+	if u, ok := err.(interface{ Unwrap() error }); ok {
+		findCheckerErrors(u.Unwrap(), out, depth+1)
+	}
+}
+
+func classifyAcc(err error, res *AResult) {
+	if err == nil {
+		res.Accept = true
+		return
+	}
+	var errs []error
+	findCheckerErrors(err, &errs, 0)
+	if len(errs) == 0 {
+		res.Other = append(res.Other, "NOCHECKERERROR: "+firstLine(err.Error())+" | "+host.Classify(err))
+		return
+	}
+	acc, oth := map[string]bool{}, map[string]bool{}
+	for _, e := range errs {
+		t := reflect.TypeOf(e)
+		for t.Kind() == reflect.Ptr {
+			t = t.Elem()
+		}
+		// errors inside imported programs are wrapped
+		if ip, ok := e.(*sema.ImportedProgramError); ok {
+			oth["ImportedProgramError:"+firstLine(ip.Err.Error())] = true
+			continue
+		}
+		if accessErrors[t.Name()] {
+			acc[t.Name()] = true
+		} else {
+			oth[t.Name()+": "+firstLine(e.Error())] = true
+		}
+	}
+	res.Access, res.Other = keys(acc), keys(oth)
+	sort.Strings(res.Access)
+}
+
+func runAccCase(c *ACase, withSrc bool) AResult {
+	res := AResult{ID: c.ID}
+	w := host.NewWorld()
+	a1, a2 := host.Addr(1), host.Addr(2)
+	none := ""
+	var srcs []string
+	deploy := func(addr common.Address, name, code string, must bool) error {
+		srcs = append(srcs, fmt.Sprintf("// deploy %s to %s\n%s", name, addr.Hex(), code))
+		err := w.Deploy(addr, name, code)
+		if err != nil && must {
+			res.Other = append(res.Other, "FIXTURE: "+firstLine(err.Error())+" :: "+lastLines(err.Error(), 6))
+		}
+		return err
+	}
+	defer func() {
+		if withSrc {
+			res.Src = strings.Join(srcs, "\n")
+		}
+	}()
+	if c.Kind == "init" {
+		classifyAcc(deploy(a1, "K", initProgram(c), false), &res)
+		return res
+	}
+	switch c.Site {
+	case "S.method":
+		classifyAcc(deploy(a1, "A", contractA(c, accBody(c, ""), none, none, none), false), &res)
+	case "S.closure":
+		classifyAcc(deploy(a1, "A", contractA(c, none, accBody(c, ""), none, none), false), &res)
+	case "A.Sib":
+		classifyAcc(deploy(a1, "A", contractA(c, none, none, accBody(c, ""), none), false), &res)
+	case "A.fun":
+		classifyAcc(deploy(a1, "A", contractA(c, none, none, none, accBody(c, "")), false), &res)
+	default:
+		if deploy(a1, "A", contractA(c, none, none, none, none), true) != nil {
+			return res
+		}
+		body := accBody(c, "A.")
+		switch c.Site {
+		case "B.fun@1":
+			code := fmt.Sprintf("import A from 0x1\naccess(all) contract B {\n  access(all) fun site(): Int {\n%s    return 0\n  }\n}\n", indent(body, "    "))
+			classifyAcc(deploy(a1, "B", code, false), &res)
+		case "B.T@1":
+			code := fmt.Sprintf("import A from 0x1\naccess(all) contract B {\n  access(all) struct T {\n    access(all) fun site(): Int {\n%s      return 0\n    }\n  }\n}\n", indent(body, "      "))
+			classifyAcc(deploy(a1, "B", code, false), &res)
+		case "C.fun@2":
+			code := fmt.Sprintf("import A from 0x1\naccess(all) contract C {\n  access(all) fun site(): Int {\n%s    return 0\n  }\n}\n", indent(body, "    "))
+			classifyAcc(deploy(a2, "C", code, false), &res)
+		case "script":
+			code := fmt.Sprintf("import A from 0x1\naccess(all) fun main(): Int {\n%s  return 0\n}\n", indent(body, "  "))
+			srcs = append(srcs, "// script\n"+code)
+			r := w.Script(code, false)
+			classifyAcc(r.Err, &res)
+		case "tx.prepare":
+			code := fmt.Sprintf("import A from 0x1\ntransaction {\n  prepare(signer: &Account) {\n%s  }\n}\n", indent(body, "    "))
+			srcs = append(srcs, "// transaction signed by 0x1\n"+code)
+			r := w.Tx(code, []common.Address{a1}, false)
+			classifyAcc(r.Err, &res)
+		case "tx.execute":
+			code := fmt.Sprintf("import A from 0x1\ntransaction {\n  prepare(signer: &Account) {}\n  execute {\n%s  }\n}\n", indent(body, "    "))
+			srcs = append(srcs, "// transaction signed by 0x1\n"+code)
+			r := w.Tx(code, []common.Address{a1}, false)
+			classifyAcc(r.Err, &res)
+		default:
+			res.Other = append(res.Other, "RENDER: unknown site "+c.Site)
+		}
+	}
+	return res
+}
+
+func lastLines(s string, n int) string {
+	ls := strings.Split(strings.TrimSpace(s), "\n")
+	if len(ls) > n {
+		ls = ls[len(ls)-n:]
+	}
+	return strings.Join(ls, " / ")
+}
+
+func accMain(args []string) {
+	if len(args) < 2 {
+		util.Die("usage: lang acc <cases.ndjson> <results.ndjson> [src]")
+	}
+	withSrc := len(args) > 2
+	var cases []*ACase
+	err := util.ReadLines(args[0], func(line []byte) error {
+		c := &ACase{}
+		if err := json.Unmarshal(line, c); err != nil {
+			return err
+		}
+		cases = append(cases, c)
+		return nil
+	})
+	if err != nil {
+		util.Die("reading cases: %v", err)
+	}
+	results := make([]AResult, len(cases))
+	util.Parallel(len(cases), runtime.NumCPU(), func(i int) {
+		results[i] = runAccCase(cases[i], withSrc)
+	})
+	out := util.NewOut(args[1])
+	for i := range results {
+		out.Write(&results[i])
+	}
+	out.Write(map[string]any{"summary": true, "cases": len(cases)})
+	out.Close()
+}
